@@ -180,10 +180,20 @@ def _schedule(item):
                                        f"parameter file = {float(want)!r} (piece {s.piece_of(Fraction(x))})")
             break
     # with a rates multiplier (as used for the ALG II income allowance)
+    snap = (th.copy(), rates.copy(), ic.copy())
     for mult in (0.5, 0.8312, 1.0):
         for x in _points(rng, th.tolist(), 20)[:60]:
             res["points"] += 1
-            got = float(piecewise_polynomial(x, thresholds=th, rates=rates, intercepts_at_lower_thresholds=ic, rates_multiplier=mult))
+            try:
+                got = float(piecewise_polynomial(x, thresholds=th, rates=rates, intercepts_at_lower_thresholds=ic, rates_multiplier=mult))
+            except Exception as e:  # noqa: BLE001
+                viol(f"{name}:evaluation_multiplier_raises", f"{name} at {item['date']}: piecewise_polynomial({x!r}, rates_multiplier={mult}) raises {type(e).__name__}: {str(e)[:120]}")
+                break
+            if not (np.array_equal(th, snap[0]) and np.array_equal(rates, snap[1]) and np.array_equal(ic, snap[2])):
+                viol("piecewise_polynomial:modifies_its_arguments", f"{name} at {item['date']}: evaluating the schedule (rates_multiplier={mult}) changed the "
+                                                                 f"parameter arrays it was given: intercepts {snap[2].tolist()} -> {ic.tolist()}")
+                ic[...] = snap[2]
+                break
             want = exact_from_arrays(x, th, rates, ic, mult)
             if not close(got, want, scale + abs(x) * float(np.max(np.abs(rates)))):
                 viol(f"{name}:evaluation_multiplier", f"{name} at {item['date']}: piecewise_polynomial({x!r}, rates_multiplier={mult}) = {got!r}, exact {float(want)!r}")
